@@ -206,10 +206,13 @@ func (h *Hash) MarshalDigest() []byte {
 }
 
 // ParseFromB58 parses the object ref from a base58 string.
+// The receiver is reset first: fields omitted from the encoding (zero type,
+// empty digest) do not keep the values the receiver held before.
 func (h *Hash) ParseFromB58(ref string) error {
 	dat, err := b58.Decode(ref)
 	if err != nil {
 		return err
 	}
+	h.Reset()
 	return h.UnmarshalVT(dat)
 }
